@@ -563,28 +563,28 @@ def notify_follows(mon, f, st, cond, pred_names):
 
 
 # ------------------------------------------------------------------------------------ R4
-def r4_capacity(chk, repo, mon, funcs):
-    chk.describe("C05.R4", "the only heap insert is dominated by a successful capacity test `len < max_messages`")
+def r4_capacity(chk, repo, mon, funcs, rule="C05.R4"):
+    chk.describe(rule, "the only heap insert is dominated by a successful capacity test `len < max_messages`")
     pushes = []
     for m in repo.modules.values():
         for f in m.functions.values():
             for kind, attr, node in writes_in(f.node):
                 if kind == "heappush" and attr == "_mailbox":
                     pushes.append((f, node))
-    chk.floor("C05.R4", "heappush sites on _mailbox", len(pushes), 1)
+    chk.floor(rule, "heappush sites on _mailbox", len(pushes), 1)
     for f, node in pushes:
         st = stmt_of(node)
         if not (f.cls is mon.cls and f.path == MAILBOX):
-            chk.fail("C05.R4", f, st, "message inserted into a mailbox heap outside class Mailbox")
+            chk.fail(rule, f, st, "message inserted into a mailbox heap outside class Mailbox")
             continue
         cfg = cfg_of(f)
         # find the capacity predicate: nested function whose return compares len(_mailbox) < max
         cap = [g for g in mon.funcs if g.parent_func is f and _is_capacity_pred(g)]
         if not cap:
-            chk.fail("C05.R4", f, st, "no capacity predicate comparing len(self._mailbox) < self.max_messages found in the sender")
+            chk.fail(rule, f, st, "no capacity predicate comparing len(self._mailbox) < self.max_messages found in the sender")
             continue
         pred = cap[0]
-        chk.ok("C05.R4", f"{pred.qualname}: returns len(self._mailbox) < self.max_messages (or killed)")
+        chk.ok(rule, f"{pred.qualname}: returns len(self._mailbox) < self.max_messages (or killed)")
 
         def gate(n):
             if n.kind != "guard" or n.test is None:
@@ -601,13 +601,13 @@ def r4_capacity(chk, repo, mon, funcs):
         ok, path = cfg.every_path([cfg.entry], cfg.nodes_of(st), gate, "n")
         chk.check(
             ok,
-            "C05.R4",
+            rule,
             f,
             st,
             "heap insert reachable without a successful capacity test or capacity wait",
             site_text=f"{f.qualname}: heappush gated by {pred.name}()",
         )
-        chk.check(mon.held(node, f), "C05.R4", f, st, "heap insert outside the lock", site_text=f"{f.qualname}: heappush under lock")
+        chk.check(mon.held(node, f), rule, f, st, "heap insert outside the lock", site_text=f"{f.qualname}: heappush under lock")
 
 
 def _is_capacity_pred(g):
